@@ -673,45 +673,50 @@ def h5_impl(case, tmp: Path) -> str:
     return f"c={rat(common.F(c1.tolerance))}|{path}|{c1.hdf_node_path}|{c1.name} sees={sees} after={entries(fresh)}"
 
 
+def instance_oracle(case, impl: str) -> tuple[bool, str, str]:
+    """Oracle of the jg/h5 instances, from the property text (the model's answer is not used): the restored
+    grammar shows what was built; the restored cache shows the content of the original's file and node."""
+    if case["kind"] == "jg":
+        want = jg_line(case)[3:]
+        ok = impl.startswith("ok ") and impl[3:] == want
+        return ok, "JSONGrammar:view-differs", f"JSONGrammar state round trip: built {want}, restored {impl}"
+    p, n_ = case["cache"].split("@")
+    es = sorted((Fraction(i), Fraction(o)) for i, o in case["nodes"].get(case["cache"], []))
+    if case.get("mid") is not None:
+        es = sorted([*es, (Fraction(case["mid"][0]), Fraction(case["mid"][1]))])
+    want_sees = ";".join(f"{rat(i)}:{rat(o)}" for i, o in es) or "[]"
+    if case["write"] is not None:
+        es = sorted([*es, (Fraction(case["write"][0]), Fraction(case["write"][1]))])
+    want_after = ";".join(f"{rat(i)}:{rat(o)}" for i, o in es) or "[]"
+    want = f"c={rat(Fraction(case['tol']))}|{p}|{n_}|nm sees={want_sees} after={want_after}"
+    return impl == want, "HDF5Cache:file-cache-detached", f"HDF5Cache re-attachment: expected {want}, observed {impl}"
+
+
 def check_instances(res: Result, rng: common.Rng, n: int, tmp: Path) -> None:
     jg = [gen_jg_case(rng) for _ in range(n)]
     h5 = [gen_h5_case(rng) for _ in range(max(3, n // 3))]
-    lines = [jg_line(c) for c in jg] + [h5_line(c) for c in h5]
+    check_instance_cases(res, jg + h5, tmp)
+
+
+def check_instance_cases(res: Result, cases: list[dict[str, Any]], tmp: Path) -> None:
+    lines = [jg_line(c) if c["kind"] == "jg" else h5_line(c) for c in cases]
     model = common.run_lean_driver(PID, lines)
-    for case, line, m in zip(jg + h5, lines, model):
+    for case, line, m in zip(cases, lines, model):
         res.evaluations += 1
         try:
             impl = jg_impl(case) if case["kind"] == "jg" else h5_impl(case, tmp)
         except Exception as e:  # noqa: BLE001
             impl = "E:" + type(e).__name__ + ":" + str(e)[:80]
         res.count("instance:" + case["kind"])
+        ok, key, what = instance_oracle(case, impl)
+        if not ok:
+            res.violate("oracle", key, what, {"case": case, "line": line})
         if impl == m:
             res.traces_validated += 1
             res.nontrivial((case["kind"], line))
             continue
         res.disagreements += 1
-        # oracle for the instances: the restored object must show what the original showed (m is not used)
-        if case["kind"] == "jg":
-            want = jg_line(case)[3:]
-            ok = impl.startswith("ok ") and impl[3:] == want
-            what = f"JSONGrammar state round trip: built {want}, restored {impl}"
-            key = "JSONGrammar:view-differs"
-        else:
-            p, n_ = case["cache"].split("@")
-            es = sorted((Fraction(i), Fraction(o)) for i, o in case["nodes"].get(case["cache"], []))
-            if case.get("mid") is not None:
-                es = sorted([*es, (Fraction(case["mid"][0]), Fraction(case["mid"][1]))])
-            want_sees = ";".join(f"{rat(i)}:{rat(o)}" for i, o in es) or "[]"
-            if case["write"] is not None:
-                es = sorted([*es, (Fraction(case["write"][0]), Fraction(case["write"][1]))])
-            want_after = ";".join(f"{rat(i)}:{rat(o)}" for i, o in es) or "[]"
-            want = f"c={rat(Fraction(case['tol']))}|{p}|{n_}|nm sees={want_sees} after={want_after}"
-            ok = impl == want
-            what = f"HDF5Cache re-attachment: expected {want}, observed {impl}"
-            key = "HDF5Cache:file-cache-detached"
-        if not ok:
-            res.violate("oracle", key, what, {"case": case, "line": line})
-        else:
+        if ok:
             res.violate(
                 "correspondence",
                 "instance:" + case["kind"],
@@ -1025,6 +1030,8 @@ def run(ctx) -> Result:
             fname = c.pop("_file")
             if c.get("kind") == "probe":
                 check_probe_cases(res, [c], True)
+            elif c.get("kind") in ("jg", "h5"):
+                check_instance_cases(res, [c], tmp)
             else:
                 process_outcome(res, c, run_case(c, tmp), tmp, shrink=False)
             res.count("corpus")
@@ -1041,7 +1048,7 @@ def run(ctx) -> Result:
 
         # ---- differential streams (parallel workers; the case list is fixed before the pool starts)
         cases = core_cases()
-        n_random = 4000 if ctx.thorough else 260
+        n_random = 4000 if ctx.thorough else 450
         sub = common.make_rng(ctx.seed, "c20-cases")
         cases += [gen_case(sub) for _ in range(n_random)]
         if ctx.thorough:
@@ -1054,7 +1061,7 @@ def run(ctx) -> Result:
                         for m in CAT.MOMENTS:
                             for s in CAT.SERIALIZERS:
                                 cases.append({"kind": "discipline", "recipe": name, "grammar": g, "cache": c, "moment": m, "serializer": s, "seed": ctx.seed + 7})
-        budget_end = min(ctx.deadline, t_start + (2400 if ctx.thorough else 75))
+        budget_end = min(ctx.deadline, t_start + (1000 if ctx.thorough else 110))
         n_workers = max(1, min(int(os.environ.get("VERIF_C20_WORKERS", "6")), os.cpu_count() or 4))
         # (workers must not be daemonic: MemoryFullCache starts a multiprocessing manager)
         from concurrent.futures import ProcessPoolExecutor
@@ -1108,6 +1115,21 @@ def run(ctx) -> Result:
             hit = [v for v in res.violations if v.kind == "oracle" and (v.key.split(":")[0].split("[")[0] == cls)]
             if not hit:
                 res.notes.append(f"no concrete failing object found for the failing table obligation of {name}: {pbs}")
+                # the obligation `table_ok` of Props/C20.lean no longer checks for this class and the search
+                # found no object on which the oracle fails: reported as such (DESIGN.md section 3)
+                res.violate(
+                    "correspondence",
+                    f"table-obligation:{cls}",
+                    f"the serialization obligation Row.ok no longer holds for {name}: {pbs} (theorem table_ok of Props/C20.lean)",
+                    {"theorem": "GV.C20.table_ok", "row": next(r for r in table["rows"] if r["name"] == name), "problems": pbs},
+                )
+        for name, pbs in failing_custom.items():
+            res.violate(
+                "correspondence",
+                f"custom-table-obligation:{name.split('.')[-1]}",
+                f"the obligation CustomRow.ok no longer holds for {name}: {pbs} (theorem custom_table_ok of Props/C20.lean)",
+                {"theorem": "GV.C20.custom_table_ok", "problems": pbs},
+            )
         _, skipped = __import__("harness.c20_catalog", fromlist=["x"]).discipline_recipes()
         res.extra["classes_skipped (external tools)"] = skipped
     finally:
@@ -1143,10 +1165,16 @@ def replay(path: str) -> int:
             return 1 if bad else 0
         if case.get("kind") in ("jg", "h5"):
             line = jg_line(case) if case["kind"] == "jg" else h5_line(case)
-            impl = jg_impl(case) if case["kind"] == "jg" else h5_impl(case, tmp)
+            try:
+                impl = jg_impl(case) if case["kind"] == "jg" else h5_impl(case, tmp)
+            except Exception as e:  # noqa: BLE001
+                impl = "E:" + type(e).__name__ + ":" + str(e)[:80]
             print("implementation:", impl)
             print("model         :", common.run_lean_driver(PID, [line])[0])
-            return 0
+            ok, key, what = instance_oracle(case, impl)
+            if not ok:
+                print("ORACLE FAILS:", key, "|", what)
+            return 0 if ok else 1
         out = run_case(case, tmp)
         print("status:", out.status, out.detail)
         for k, w in out.failures:
